@@ -16,7 +16,7 @@ def run(binary, seed, focus, extra):
 def main():
     variant, focus, lo, hi = sys.argv[1], sys.argv[2], int(sys.argv[3]), int(sys.argv[4])
     extra = sys.argv[5:]
-    binary = os.path.join(os.path.dirname(os.path.abspath(__file__)), "target/repo/%s/release/lexsim-%s" % (variant, variant.replace("_", "-")))
+    binary = os.environ.get("LEXSIM_BIN") or os.path.join(os.path.dirname(os.path.abspath(__file__)), "target/repo/%s/release/lexsim-%s" % (variant, variant.replace("_", "-")))
     c = collections.Counter(); ex = {}
     n = 0; ops = collections.Counter(); faults = collections.Counter()
     with ThreadPoolExecutor(16) as ex_:
